@@ -5,7 +5,7 @@ from ..loops import LoopPart
 
 
 def run(tier, seed, replay=None):
-    parts = [EventPart("evt", report_crashes=True, src_file="evt_tv.cpp", faults_quick=100, faults_thorough=100), LoopPart()]
+    parts = [EventPart("evt", report_crashes=True, src_file="evt_tv.cpp", faults_quick=112, faults_thorough=112), LoopPart()]
     return run_check(
         "C02", tier, seed, ["UnifexModel.Props.C02"], parts,
         rule="generated sender expressions + event scripts (see C05) on the REAL library, with a TRACKED value type travelling through the tree (constructions/destructions counted, "
